@@ -190,6 +190,18 @@ def oracle(c, out):
             want = "ok (%s) noerr %d" % (" ".join(str(len(r)) for r in recs), sum(len(r) for r in recs))
             if out != want:
                 return ("scan-tokens", "scanner tokens %s, records %s" % (out, want))
+    if kind == "bfd" and out.startswith("ok (") and len(out.split()) > 1:
+        # an accepted control packet re-serialises to octets that say the same (RFC 5880 4.1 layout, read here independently)
+        def fields(b):
+            return (b[0] >> 5, b[0] & 31, b[1] >> 6, (b[1] >> 5) & 1, (b[1] >> 4) & 1, b[2], b[4:8], b[8:12], b[12:16], b[16:20])
+        try:
+            inp, re = bytes.fromhex(line.split()[1]), bytes.fromhex(out.split()[-1])
+        except ValueError:
+            inp = re = b""
+        if len(inp) >= 24 and len(re) >= 24 and fields(inp) != fields(re):
+            names = ["version", "diagnostic", "state", "poll", "final", "detect-mult", "my-discriminator", "your-discriminator", "min-tx", "min-rx"]
+            bad = [n for n, x, y in zip(names, fields(inp), fields(re)) if x != y]
+            return ("bfd-reserialised-differs", "the BFD control packet %s is accepted and re-serialised as %s: %s differ" % (inp[:24].hex(), re[:24].hex(), ", ".join(bad)))
     if kind in ("splitmrt", "splitbmp") and out.startswith("ok") and not out.endswith("nil"):
         adv, tl = int(out.split()[1]), int(out.split()[2])
         if tl > len(data) or adv > len(data) or adv <= 0 or tl != adv:
